@@ -12,12 +12,12 @@ import (
 // executed on the real interpreter (history replayed on a fresh instance) and on the reference.
 
 var c09Inits = []string{
-	":- dynamic(p/1). :- dynamic(q/1).",
-	":- dynamic(p/1). :- dynamic(q/1). p(1).",
-	":- dynamic(p/1). :- dynamic(q/1). p(1). p(2). p(3).",
-	":- dynamic(p/1). :- dynamic(q/1). p(1). p(2). p(1).",
-	":- dynamic(p/1). :- dynamic(q/1). p(_). p(1). q(2).",
-	":- dynamic(p/1). :- dynamic(q/1). p(1). p(X) :- q(X). p(3). q(2). q(3).",
+	":- dynamic(p/1). :- dynamic(q/1). via(X) :- p(X).",
+	":- dynamic(p/1). :- dynamic(q/1). via(X) :- p(X). p(1).",
+	":- dynamic(p/1). :- dynamic(q/1). via(X) :- p(X). p(1). p(2). p(3).",
+	":- dynamic(p/1). :- dynamic(q/1). via(X) :- p(X). p(1). p(2). p(1).",
+	":- dynamic(p/1). :- dynamic(q/1). via(X) :- p(X). p(_). p(1). q(2).",
+	":- dynamic(p/1). :- dynamic(q/1). via(X) :- p(X). p(1). p(X) :- q(X). p(3). q(2). q(3).",
 }
 
 // every op is one query; findall makes it run to exhaustion and records what the open call saw
@@ -58,12 +58,17 @@ var c09Ops = []string{
 	"findall(X-Y, (retract(p(X)), member(Y, [5, 6]), asserta(p(Y))), L)",
 	"findall(X, (p(X), asserta(p(8)), asserta(p(9)), once(retract(p(_)))), L)",
 	"findall(X, (retract(p(X)), assertz(p(7)), asserta(p(8)), assertz(p(9))), L)",
+	// the same stored call site before and after an update: a clause of a static helper that calls p/1, and one goal
+	// of a query that is re-entered after the procedure was abolished and made anew
+	"catch(findall(X, via(X), L), error(E, _), true)",
+	"catch(findall(I-X, (member(I, [1, 2]), (I =:= 2 -> abolish(p/1), assertz(p(9)) ; true), p(X)), L), error(E, _), true)",
 }
 
 var c09Listing = []string{
 	"catch(findall(X-B, clause(p(X), B), L), error(E, _), true)",
 	"catch(findall(X-B, clause(q(X), B), L), error(E, _), true)",
 	"catch(findall(X, p(X), L), error(E, _), true)",
+	"catch(findall(X, via(X), L), error(E, _), true)",
 }
 
 // family B: a binary predicate, for non-linear patterns (r(X,X)) and aliased arguments
@@ -225,7 +230,7 @@ func verdictOf(res []h.StepResult, first int, inconc bool) string {
 func init() {
 	h.Register(&h.Check{
 		ID: "C09",
-		Rule: "explicit-state BFS over database histories: 6 initial states of two dynamic predicates p/1, q/1 (empty, single, several, duplicates, clause with a variable, facts mixed with a rule) x an alphabet of 47 operations (asserta/assertz incl. bindings made before/after, retract first/all/by pattern, retractall, abolish, calls, and updates issued inside an open call, an open clause/2 and an open retract/1, each run to exhaustion under findall so that what the open goal saw is recorded); the same for family B (a binary predicate r/2: non-linear and aliased patterns) and family C (a predicate of arity 0, whose duplicate facts are equal atoms, and one term instance asserted several times through a variable, 26 operations); all histories up to depth U without merging, then merged by key (model database state, last operation) up to depth D. Non-trivial/distinct = distinct (model state, last op).",
+		Rule: "explicit-state BFS over database histories: 6 initial states of two dynamic predicates p/1, q/1 (empty, single, several, duplicates, clause with a variable, facts mixed with a rule) x an alphabet of 49 operations (incl. calls through one stored clause of a static helper before and after updates, and a goal re-entered after abolish) (asserta/assertz incl. bindings made before/after, retract first/all/by pattern, retractall, abolish, calls, and updates issued inside an open call, an open clause/2 and an open retract/1, each run to exhaustion under findall so that what the open goal saw is recorded); the same for family B (a binary predicate r/2: non-linear and aliased patterns) and family C (a predicate of arity 0, whose duplicate facts are equal atoms, and one term instance asserted several times through a variable, 26 operations); all histories up to depth U without merging, then merged by key (model database state, last operation) up to depth D. Non-trivial/distinct = distinct (model state, last op).",
 		Explanation: "state = contents and order of p/1 and q/1 in the reference model; transition = one operation executed on the REAL interpreter (the history is replayed on a fresh instance) and on the reference with generation-free logical update view (call-time snapshots); after every transition the operation's answers/error and the full listing of both predicates (clause/2) plus the answers of p(X) are compared",
 		Assumptions: []string{"reference: ISO 7.5.4 logical update view - a call, clause/2 and retract/1 enumerate the snapshot taken when they were called; retract succeeds once per matching snapshot clause (ISO 8.9.3.4 example) and removes it if still present", "abolish/retractall of a procedure that does not exist are not stated by the property and end the branch as inconclusive"},
 		Work:        c09Work,
